@@ -1,4 +1,6 @@
 import Huginn.Props.C07Http
+import Huginn.Props.C07Cap
+import Huginn.Props.C01
 /-
 C01, no poisoning, HTTP at full strength for the repaired code: `Props/C01.lean`'s
 `http_not_poisoned` asks for parsers that never write processor state; the repaired HTTP/2 parser
@@ -20,5 +22,29 @@ theorem http_not_poisoned_full {γ Q P : Type} (H : HttpParams γ Q P) (hri : Re
   fresh_probe_sim (httpAnalyzer H) (httpAnalyzer (H.pure g)) (fun _ => rfl)
     (fun p => httpProg_sim H hri g p) httpConnOfKey httpConnOf
     (fun p => http_local (H.pure g) (pure_stateless H g) p) c hist probe cap g hh hp hne
+
+/-- No poisoning with the capacity condition on the traffic: after ANY history (malformed or not),
+provided history and probe together open at most `cap` distinct flows, the probe connection is
+analysed exactly as by a fresh analyzer. -/
+theorem tls_not_poisoned_cap {R S : Type} (P : TlsParams R S) (c : FlowKey) (hist probe : List Seg)
+    (cap : Nat) (hh : ∀ p ∈ hist, flowKeyOf p ≠ c) (hp : ∀ p ∈ probe, flowKeyOf p = c)
+    (K : List FlowKey) (hK : ∀ s ∈ hist ++ probe, flowKeyOf s ∈ K) (hlen : K.length ≤ cap) :
+    ((tlsAnalyzer P).runOuts ({ cap := cap }, ()) (hist ++ probe)).filter
+        (fun po => decide (flowKeyOf po.1 = c)) =
+      (tlsAnalyzer P).runOuts ({ cap := cap }, ()) probe :=
+  tls_not_poisoned P c hist probe cap hh hp
+    (noEvict_of_keysIn (tlsAnalyzer P) K _ (fun s hs => tls_insertsIn P s K (hK s hs)) _ _
+      (keysIn_empty K cap) hlen)
+
+theorem http_not_poisoned_cap {γ Q P : Type} (H : HttpParams γ Q P) (hri : ResultIndep H) (g : γ)
+    (c : Ep × Ep) (hist probe : List Seg) (cap : Nat)
+    (hh : ∀ p ∈ hist, httpConnOf p ≠ c) (hp : ∀ p ∈ probe, httpConnOf p = c)
+    (K : List FlowKey) (hK : ∀ s ∈ hist ++ probe, s.syn = true → flowKeyOf s ∈ K) (hlen : K.length ≤ cap) :
+    ((httpAnalyzer H).runOuts ({ cap := cap }, g) (hist ++ probe)).filter
+        (fun po => decide (httpConnOf po.1 = c)) =
+      (httpAnalyzer H).runOuts ({ cap := cap }, g) probe :=
+  http_not_poisoned_full H hri g c hist probe cap hh hp
+    (noEvict_of_keysIn (httpAnalyzer H) K _ (fun s hs => http_insertsIn H s K (hK s hs)) _ _
+      (keysIn_empty K cap) hlen)
 
 end Huginn.Props.C01
